@@ -85,6 +85,10 @@ def check_grid(g, m, v, tag):
         v("grid-centers", "count", f"{tag}: {len(cc)} cell centres for {len(cells)} cells")
         return
     nn = g.cell_node_counts
+    if int(g.cell_count) != len(cells) or len(nn) != len(cells) or len(g.cell_types) != len(cells):
+        v("grid-cells", "count", f"{tag}: {len(cells)} cells, but cell_count {g.cell_count}, {len(nn)} node counts, "
+          f"{len(g.cell_types)} cell types")
+        return
     for c in range(len(cells)):
         mean = pts[cells[c][: nn[c]]].mean(axis=0)
         if not np.allclose(mean, cc[c], atol=1e-9):
@@ -95,6 +99,20 @@ def check_grid(g, m, v, tag):
 
 
 def execute(sc):
+    try:
+        return _execute(sc)
+    except Exception as e:      # noqa: BLE001
+        from ..core import raised_in_finam
+        if not raised_in_finam(e):
+            raise
+        # a public grid property of a valid grid raised inside finam
+        return {"violations": [{"oracle": "grid-exception", "kind": type(e).__name__,
+                                "msg": f"a public grid property / cast of a valid grid raised {type(e).__name__}: {str(e)[:200]}; "
+                                       f"grid {sc['grid']}, ops {sc['ops']}"}],
+                "digest": digest_of([sc, "exception"]), "nontrivial": False}
+
+
+def _execute(sc):
     viol, log = [], []
 
     def v(oracle, kind, msg):
@@ -152,7 +170,9 @@ def execute(sc):
             size = int(np.prod(m.data_shape()))
             if tuple(u.data_shape) != (size,) or not np.allclose(u.data_points, g.data_points) \
                     or not np.array_equal(u.cells, g.cells) or not np.allclose(u.points, g.points) \
-                    or not np.allclose(u.cell_centers, g.cell_centers) or u.order != g.order:
+                    or not np.allclose(u.cell_centers, g.cell_centers) or u.order != g.order \
+                    or len(u.cell_types) != len(u.cells) or int(u.cell_count) != len(u.cells) \
+                    or not np.array_equal(u.cell_types, g.cell_types):
                 v("grid-unstructured", "cast", f"{tag}: unstructured cast does not preserve points/cells/data points")
         elif k == "cast":
             if hasattr(g, "to_uniform"):
